@@ -22,6 +22,12 @@ class PureExecutor(Executor):
     def may_be_ref(self, v, st):
         return False
 
+    def unsupported_if_feasible(self, st, msg):
+        """A construct outside the subset on a path: fail closed unless z3 proves the path dead."""
+        if self.path_feasible(st):
+            raise Unsupported(msg)
+        return []
+
     def path_feasible(self, st):
         from . import feas
         return feas.is_feasible(st.pc, extra_prelude=getattr(self, 'extra_prelude', ''))
@@ -329,10 +335,10 @@ class PureExecutor(Executor):
         raise Unsupported('isinstance with dynamic class')
 
     def method_call_ref(self, recv, name, args, kw, st, node):
-        raise Unsupported('method %s on heap object at line %s' % (name, node.lineno))
+        return self.unsupported_if_feasible(st, 'method %s on heap object at line %s' % (name, node.lineno))
 
     def method_call_cls(self, recv, name, args, kw, st, node):
-        raise Unsupported('method %s on class object at line %s' % (name, node.lineno))
+        return self.unsupported_if_feasible(st, 'method %s on class object at line %s' % (name, node.lineno))
 
 
 EXTRA_DECLS = """
